@@ -142,7 +142,7 @@ func checkMTUs(want, got []ndp.Option) problems {
 		return nil
 	}
 
-	if mtuA == mtuB {
+	if mtuA.MTU == mtuB.MTU {
 		return nil
 	}
 
@@ -337,7 +337,7 @@ func checkCaptivePortal(want, got []ndp.Option) problems {
 		return nil
 	}
 
-	if cpA == cpB {
+	if cpA.URI == cpB.URI {
 		return nil
 	}
 
